@@ -1061,3 +1061,226 @@ PROPS["C13"] = {
     "assumptions": ["gradients have their parameter's dimensions (guaranteed by C03 for gradients produced by backward)"],
     "post": ["gd_spec"],
 }
+
+
+# ======================================================================================
+# C11 one evaluation per node with the complete adjoint (user closures through Array::op)
+
+def custom_dag(wiring, kinds, rng, tracked=(True, True), chain_vals=None):
+    b = randprog.Builder(rng, exact=True)
+    d = [2]
+    a0 = b.leaf(d, tracked=tracked[0], values=chain_vals)
+    a1 = b.leaf(d, tracked=tracked[1], values=chain_vals)
+    nodes = [a0, a1]
+    for (x, y), kind in zip(wiring, kinds):
+        args = [nodes[x]] if kind == "sq" else [nodes[x], nodes[y]]
+        v = b.result(("custom", kind), args, d, False, True, 0)
+        v.tracked = True
+        nodes.append(v)
+    return b, nodes
+
+
+def log_case(name, b, root, seed, cls):
+    c = graph_case(name, b, root, seed, cls)
+    c["adjudicate"] = [c["backward_at"]] + c["adjudicate"]
+    c["log_at"] = c["backward_at"]
+    # consumers among user-defined nodes: (consumer instruction, operand instruction)
+    edges = []
+    custom = set(i for i, ins in enumerate(c["instrs"]) if ins[0] == "op" and ins[1][0] == "custom")
+    for i in custom:
+        for a in c["instrs"][i][2]:
+            if a in custom:
+                edges.append((i, a))
+    c["custom_nodes"] = sorted(custom)
+    c["custom_edges"] = edges
+    return c
+
+
+def gen_C11(tier, rng):
+    cases = []
+    kinds = ["mul", "aff", "sq"]
+    k = 0
+    for n in (1, 2, 3):
+        for wiring in small_dags(n, None, rng):
+            k += 1
+            ks = [kinds[(k + i) % 3] for i in range(n)]
+            tr = (True, True) if k % 5 else [(True, False), (False, True)][k % 2]
+            b, nodes = custom_dag(wiring, ks, rng, tracked=tr)
+            cases.append(log_case("cdag", b, nodes[-1], b.seed_for(nodes[-1]), "dag:%dops" % n))
+    four = list(small_dags(4, None, rng))
+    if tier == "quick":
+        four = rng.sample(four, 1500)
+    for wiring in four:
+        ks = [rng.choice(kinds) for _ in range(4)]
+        b, nodes = custom_dag(wiring, ks, rng)
+        # the pass may start on any operation node
+        root = nodes[-1] if rng.random() < 0.7 else rng.choice(nodes[2:])
+        cases.append(log_case("cdag4", b, root, b.seed_for(root), "dag:4ops"))
+    if tier == "thorough":
+        five = list(small_dags(5, None, rng))
+        for wiring in rng.sample(five, 20000):
+            ks = [rng.choice(kinds) for _ in range(5)]
+            b, nodes = custom_dag(wiring, ks, rng)
+            cases.append(log_case("cdag5", b, nodes[-1], b.seed_for(nodes[-1]), "dag:5ops"))
+    # chains of self-products: 2^depth paths, depth closure calls
+    for depth in ([40, 50, 60] if tier == "quick" else list(range(30, 64, 2))):
+        b = randprog.Builder(rng, exact=True)
+        x = b.leaf([2], tracked=True, values=[1.0, 1.0])
+        cur = x
+        for _ in range(depth):
+            cur = b.result(("custom", "mul"), [cur, cur], [2], False, True, 0)
+            cur.tracked = True
+        cases.append(log_case("selfprod", b, cur, None, "chain:selfproduct"))
+    # mixed graphs: user closures between built-in operations
+    for _ in range(150 if tier == "quick" else 2000):
+        b = randprog.Builder(rng, exact=True, max_rank=2,
+                             ops=[("cmul", 3), ("caff", 2), ("csq", 2), ("add", 2), ("mul", 2), ("sum", 1)])
+        root = b.build(rng.randint(2, 9))
+        cases.append(log_case("mixed", b, root, b.seed_for(root), "mixed"))
+    return cases
+
+
+def post_log_once(cases, rust, model):
+    """evaluated on corgi's own invocation log: every user closure of the differentiated graph ran exactly
+    once and only after every user-closure consumer of its node"""
+    fails = []
+    n = 0
+    for i, (c, r) in enumerate(zip(cases, rust)):
+        if "log_at" not in c or any(o == "panic" for o in r):
+            continue
+        log = [it for it in r[c["log_at"]] if it[0] == 6]
+        tags = [it[1][0] for it in log]
+        n += 1
+        if len(tags) != len(set(tags)):
+            fails.append({"case": i, "confirmed": True,
+                          "reason": "a derivative closure was invoked more than once in one pass: %s" % tags})
+            continue
+        pos = {t: j for j, t in enumerate(tags)}
+        for (cons, opnd) in c["custom_edges"]:
+            if cons in pos and opnd in pos and pos[cons] > pos[opnd]:
+                fails.append({"case": i, "confirmed": True,
+                              "reason": "closure of node %d ran before its consumer %d had contributed" % (opnd, cons)})
+                break
+            if cons in pos and opnd not in pos:
+                fails.append({"case": i, "confirmed": True,
+                              "reason": "closure of node %d never ran although its consumer %d did" % (opnd, cons)})
+                break
+    return fails, n
+
+
+POST["log_once"] = post_log_once
+
+PROPS["C11"] = {
+    "gen": gen_C11,
+    "rule": "every wiring of 1-3 user-defined operation nodes (closures mul / affine / square supplied through "
+            "Array::op, kinds rotating) over two leaves, 4-node wirings (all 14400 thorough, 1500 sampled quick; the "
+            "pass starts on the last or on a random node), 20000 sampled 5-node wirings (thorough), chains of "
+            "self-products of depth 40-60 (2^depth paths), random graphs mixing user closures with built-in "
+            "operations; the invocation log (node, received adjoint) of each pass is compared with the model as a "
+            "multiset (exact integers) and checked directly for: no node twice, consumers before operands, no "
+            "reachable node missing; distinct = distinct program text",
+    "exhaustive": {"quick": False, "thorough": False},
+    "assumptions": ["only user-supplied closures are observable; built-in closures are covered by the model theorem"],
+    "post": ["log_once"],
+}
+
+
+# ======================================================================================
+# C17 linearity in the seed
+
+def gen_C17(tier, rng):
+    cases = []
+    count = 350 if tier == "quick" else 5000
+    g = 0
+    for i in range(count):
+        exact = i % 4 != 3
+        st = rng.getstate()
+        def build():
+            rng.setstate(st)
+            b = randprog.Builder(rng, exact=exact, max_rank=rng.choice([2, 3]))
+            root = b.build(rng.randint(1, 9))
+            return b, root
+        b, root = build()
+        after = rng.getstate()
+        n = prod(root.dims)
+        alpha, beta = rng.choice([-2, -1, 1, 2, 3]), rng.choice([-2, -1, 1, 2])
+        s1 = [float(rng.randint(-2, 2)) for _ in range(n)]
+        s2 = [float(rng.randint(-2, 2)) for _ in range(n)]
+        s3 = [alpha * x + beta * y for x, y in zip(s1, s2)]
+        seeds = [("s1", (root.dims, s1)), ("s2", (root.dims, s2)), ("comb", (root.dims, s3)),
+                 ("none", None), ("ones", (root.dims, [1.0] * n))]
+        g += 1
+        for role, seed in seeds:
+            b, root = build()
+            c = graph_case("lin_" + role, b, root, seed, "exact" if exact else "float",
+                           **({} if exact else {"rtol": 1e-7}))
+            c["group"] = g
+            c["role"] = role
+            c["coeffs"] = (alpha, beta)
+            cases.append(c)
+        rng.setstate(after)
+        rng.random()
+    return cases
+
+
+def grads_of(c, r):
+    out = {}
+    for leaf, gi in c["grads"].items():
+        ob = r[gi]
+        out[leaf] = list(ob[0][2]) if ob and ob != "panic" and ob[0][0] == 4 else None
+    return out
+
+
+def post_linearity(cases, rust, model):
+    fails = []
+    n = 0
+    groups = {}
+    for i, c in enumerate(cases):
+        if c.get("group") is not None and "role" in c:
+            groups.setdefault(c["group"], {})[c["role"]] = i
+    for g, roles in groups.items():
+        if not all(k in roles for k in ("s1", "s2", "comb", "none", "ones")):
+            continue
+        if any(any(o == "panic" for o in rust[i]) for i in roles.values()):
+            continue
+        c = cases[roles["comb"]]
+        alpha, beta = c["coeffs"]
+        g1, g2, g3 = (grads_of(cases[roles[k]], rust[roles[k]]) for k in ("s1", "s2", "comb"))
+        gn, go = (grads_of(cases[roles[k]], rust[roles[k]]) for k in ("none", "ones"))
+        n += 1
+        tol = c.get("rtol", 0.0) * 100
+        bad = None
+        for leaf in g3:
+            a, b2, c3 = g1.get(leaf), g2.get(leaf), g3.get(leaf)
+            if (a is None) != (c3 is None) or (b2 is None) != (c3 is None):
+                bad = "gradient of variable %d is present for some seeds and absent for others" % leaf
+                break
+            if c3 is not None:
+                for x, y, z in zip(a, b2, c3):
+                    e = alpha * x + beta * y
+                    if abs(e - z) > tol * (abs(alpha * x) + abs(beta * y) + 1):
+                        bad = "variable %d: gradient under %d*s1 + %d*s2 is %r, the combination of the two gradients is %r" % (leaf, alpha, beta, z, e)
+                        break
+            if bad:
+                break
+            if gn.get(leaf) != go.get(leaf):
+                bad = "variable %d: gradient without a seed %r differs from the gradient with a seed of ones %r" % (leaf, gn.get(leaf), go.get(leaf))
+                break
+        if bad:
+            fails.append({"case": roles["comb"], "confirmed": True, "reason": bad})
+    return fails, n
+
+
+POST["linearity"] = post_linearity
+
+PROPS["C17"] = {
+    "gen": gen_C17,
+    "rule": "seeded random programs (1-9 operations, every operation, broadcasting; three quarters integer-valued "
+            "and exact, one quarter floats with rtol 1e-7), each run five times in fresh instances with seeds s1, s2, "
+            "alpha*s1+beta*s2 (small integer coefficients), no seed, and ones; leaf gradients compared with the model "
+            "and the linear relation / none == ones evaluated directly on corgi's gradients; distinct = distinct "
+            "program text",
+    "exhaustive": {"quick": False, "thorough": False},
+    "assumptions": ["user-defined operations are the harness library's (linear in the adjoint)"],
+    "post": ["linearity"],
+}
